@@ -607,7 +607,7 @@ fn tcp_leg(src: &mut Src, ctx: &mut RunCtx, solo: &Arc<Solo>) -> RunResult {
 
 pub struct FileSinkCheck;
 
-const INITIAL: [&str; 5] = ["absent", "empty", "nonempty", "directory", "missing-parent"];
+const INITIAL: [&str; 6] = ["absent", "empty", "nonempty", "directory", "missing-parent", "nonempty-13-bytes"];
 
 fn mode_of(i: usize) -> Mode {
     match i {
@@ -619,14 +619,15 @@ fn mode_of(i: usize) -> Mode {
 
 fn setup_initial(dir: &std::path::Path, state: usize) -> (std::path::PathBuf, Vec<u8>) {
     let path = if state == 4 { dir.join("nope").join("out.bin") } else { dir.join("out.bin") };
-    let pre: Vec<u8> = b"PRE-EXISTING".to_vec();
+    // 12 bytes, or 13: not a whole number of 4- or 8-byte samples.
+    let pre: Vec<u8> = if state == 5 { b"PRE-EXISTING!".to_vec() } else { b"PRE-EXISTING".to_vec() };
     match state {
         1 => std::fs::write(&path, b"").unwrap(),
-        2 => std::fs::write(&path, &pre).unwrap(),
+        2 | 5 => std::fs::write(&path, &pre).unwrap(),
         3 => std::fs::create_dir(&path).unwrap(),
         _ => {}
     }
-    (path, if state == 2 { pre } else { vec![] })
+    (path, if state == 2 || state == 5 { pre } else { vec![] })
 }
 
 impl Check for FileSinkCheck {
@@ -637,7 +638,7 @@ impl Check for FileSinkCheck {
         "fault_enumeration"
     }
     fn rule(&self) -> String {
-        "enumerated part: modes {Create, Overwrite, Append} x initial states {absent, empty, non-empty, directory, missing parent directory} x {FileSink, NoCopyFileSink} = 30 cells against the documented truth table (create fails iff the file exists; overwrite leaves exactly the new data; append keeps the old content and adds, creating the file if absent; directories and missing parents are errors). \
+        "enumerated part: modes {Create, Overwrite, Append} x initial states {absent, empty, non-empty (12 bytes), non-empty (13 bytes: not a whole number of samples), directory, missing parent directory} x {FileSink<u8>, NoCopyFileSink, FileSink<Float>} = 54 cells against the documented truth table (create fails iff the file exists; overwrite leaves exactly the new data; append keeps the old content and adds, creating the file if absent; directories and missing parents are errors). \
          seeded part: a child process (re-exec of the simulator) streams seeded data through the sink under a seeded feed schedule (4-8 KiB streams; one run in 30 a default-size stream fed more than 1 MiB); the fault plan kills it at the N-th write() on the sink's file after a torn length k (every write index and torn-length class is reachable), or injects short writes / one EINTR without a crash. After each work() the child records how many samples were consumed (acknowledged). Parent oracle: the file is a prefix of pre-existing content + serialised stream and holds at least the acknowledged samples; without a crash it is complete. \
          non-trivial = the child was killed inside a write that followed at least one acknowledged work(); distinct = (mode, sink, write index, torn length, data size)".into()
     }
@@ -657,14 +658,14 @@ impl Check for FileSinkCheck {
         }
     }
     fn fixed_cases(&self) -> u64 {
-        30
+        54
     }
     fn required(&self, _tier: Tier) -> Vec<&'static str> {
         vec!["fault:crash_at_write", "fault:kill_between_calls", "fault:torn_write", "fault:short_write", "fault:eintr_write", "fault:write_error", "crash_after_ack", "mode_cells"]
     }
     fn run(&self, src: &mut Src, ctx: &mut RunCtx) -> RunResult {
-        let sel = src.draw(31);
-        let r = if sel < 30 { mode_cell(sel as usize, ctx) } else { crash_run(src, ctx) };
+        let sel = src.draw(55);
+        let r = if sel < 54 { mode_cell(sel as usize, ctx) } else { crash_run(src, ctx) };
         for v in &src.log {
             ctx.hash.add(*v);
         }
@@ -677,14 +678,15 @@ impl Check for FileSinkCheck {
 
 fn mode_cell(cell: usize, ctx: &mut RunCtx) -> RunResult {
     let mode = cell % 3;
-    let state = (cell / 3) % 5;
-    let nocopy = cell / 15 == 1;
+    let state = (cell / 3) % 6;
+    let nocopy = cell / 18 == 1;
+    let float = cell / 18 == 2;
     ctx.count("mode_cells");
     ctx.nontrivial = true;
     ctx.hash.add(cell as u64 ^ 0xc17);
     let dir = tempfile::tempdir().map_err(|e| Violation::new("HARNESS-PANIC tempdir", e.to_string()))?;
     let (path, pre) = setup_initial(dir.path(), state);
-    let desc = format!("{} mode {:?} on {}", if nocopy { "NoCopyFileSink" } else { "FileSink" }, ["Create", "Overwrite", "Append"][mode], INITIAL[state]);
+    let desc = format!("{} mode {:?} on {}", if nocopy { "NoCopyFileSink" } else if float { "FileSink<Float>" } else { "FileSink<u8>" }, ["Create", "Overwrite", "Append"][mode], INITIAL[state]);
     ctx.ev(|| desc.clone());
     if ctx.sample.is_none() {
         ctx.sample = Some(json!({"cell": desc}));
@@ -701,6 +703,23 @@ fn mode_cell(cell: usize, ctx: &mut RunCtx) -> RunResult {
                     w.push("abc".to_string(), &[]);
                     w.push("de".to_string(), &[]);
                     for _ in 0..4 {
+                        if let Err(e) = b.work() {
+                            return (false, format!("work failed: {e}"));
+                        }
+                    }
+                    (true, String::new())
+                }
+            }
+        } else if float {
+            let (w, r) = new_stream::<f32>();
+            match catch(|| FileSink::<f32>::new(r, &path, mode_of(mode))) {
+                Err(p) => (false, format!("PANIC {}", p.msg)),
+                Ok(Err(e)) => (false, e.to_string()),
+                Ok(Ok(mut b)) => {
+                    let mut wb = w.write_buf().unwrap();
+                    wb.slice()[..2].copy_from_slice(&[1.0f32, -2.5]);
+                    wb.produce(2, &[]);
+                    for _ in 0..3 {
                         if let Err(e) = b.work() {
                             return (false, format!("work failed: {e}"));
                         }
@@ -730,15 +749,21 @@ fn mode_cell(cell: usize, ctx: &mut RunCtx) -> RunResult {
     if err.starts_with("PANIC") {
         return Err(Violation::new("C17:constructor-panic", format!("{desc}: {err}")));
     }
-    let written: Vec<u8> = if nocopy { b"abc\nde\n".to_vec() } else { new_data.clone() };
+    let written: Vec<u8> = if nocopy {
+        b"abc\nde\n".to_vec()
+    } else if float {
+        [1.0f32.to_le_bytes(), (-2.5f32).to_le_bytes()].concat()
+    } else {
+        new_data.clone()
+    };
     // Truth table.
-    let exists = matches!(state, 1 | 2);
+    let exists = matches!(state, 1 | 2 | 5);
     let must_fail = state == 3 || state == 4 || (mode == 0 && exists);
     if must_fail {
         if ctor_ok {
             return Err(Violation::new("C17:mode-should-fail", format!("{desc}: opened without error")));
         }
-        if state == 2 {
+        if state == 2 || state == 5 {
             let now = std::fs::read(&path).unwrap_or_default();
             if now != pre {
                 return Err(Violation::new("C17:mode-clobbered", format!("{desc}: refused, but the existing content changed")));
